@@ -24,8 +24,6 @@ func Load(r *rt.Runtime) (rt.Value, func()) {
 	rt.SolemnlyDeclareCompliance(
 		rt.ComplyCpuSafe|rt.ComplyMemSafe|rt.ComplyTimeSafe|rt.ComplyIoSafe,
 
-		ipairsIterator,
-		nextGoFunc,
 		r.SetEnvGoFunc(env, "assert", assert, 1, true),
 		r.SetEnvGoFunc(env, "error", errorF, 2, false),
 		r.SetEnvGoFunc(env, "getmetatable", getmetatable, 1, false),
@@ -54,6 +52,17 @@ func Load(r *rt.Runtime) (rt.Value, func()) {
 	// That's not safe!
 	r.SetEnvGoFunc(env, "collectgarbage", collectgarbage, 2, false)
 	return rt.NilValue, nil
+}
+
+// ipairsIterator and nextGoFunc are shared by all runtimes, so their
+// compliance is declared once here rather than each time the library is loaded
+// (which may happen concurrently in different runtimes).
+func init() {
+	rt.SolemnlyDeclareCompliance(
+		rt.ComplyCpuSafe|rt.ComplyMemSafe|rt.ComplyTimeSafe|rt.ComplyIoSafe,
+		ipairsIterator,
+		nextGoFunc,
+	)
 }
 
 func ToString(t *rt.Thread, v rt.Value) (string, error) {
